@@ -39,9 +39,6 @@ fn prescribed(op: u8, msg: &[u8], parent: &[u8], ph: &[u8], amount: u64, konst: 
     m
 }
 
-fn tree_hash_t(t: &T) -> [u8; 32] {
-    match t { T::A(b) => sha(&[&[1u8], b]), T::P(l, r) => sha(&[&[2u8], &tree_hash_t(l), &tree_hash_t(r)]) }
-}
 
 struct Verdicts { plain: bool, cold: bool, warm: bool, mempool: bool }
 
